@@ -55,3 +55,8 @@ Definition chk_c12_target (c : val) : val :=
   let o := as_Z (nthv 0 (nthv 1 c)) in
   if as_bool (nthv 0 input) then (if Z.eqb o 2 then verdict_ok else verdict_propfail 6 (VL [VN o]))
   else (if Z.eqb o 1 then verdict_ok else verdict_propfail 6 (VL [VN o])).
+
+(* C11, free-running stress: impl ( violations ) : lookups routed to a target after its Close had returned (or a name not
+   re-watchable after Close returned) *)
+Definition chk_c11_stress (c : val) : val :=
+  if Z.eqb (as_Z (nthv 0 (nthv 1 c))) 0 then verdict_ok else verdict_propfail 1 (VL [nthv 0 (nthv 1 c)]).
